@@ -685,7 +685,9 @@ def check_C14(ctx):
     scen = vt.tlc_generate(ctx, 'GenWire', 'C14', 0)
     # concurrent runs / aggregation goroutines / allocators / reverse-DNS fan-out on the ordinary wire
     allreq = [s for s in vt.tlc_generate(ctx, 'GenRun', 'C15', 0) if 'faults' in s and s['run']['queries'] >= 2 and s['run']['e2e'] >= 1]
-    reqs = [s for s in allreq if not s['faults']]
+    reqs = [s for s in allreq if not s['faults'] and '/long/' not in s['id']]
+    # TTL ranges beyond the default towards a silent target, three runs at once (per-run buffers)
+    scen += [s for s in vt.tlc_generate(ctx, 'GenRun', 'C15', 0) if '/long/' in s['id']]
     # several queries failing at once (error accumulation under contention)
     failing = []
     for r in allreq[:: max(1, len(allreq) // 8)][:8]:
